@@ -126,7 +126,7 @@ pub fn spec(id: &str) -> Option<HistorySpec> {
                 id: "C11",
                 oracles: Oracles { dirlist: true, cursor: true, ..Default::default() },
                 params: p,
-                quick_cases: 1500,
+                quick_cases: 6000,
                 thorough_cases: 40_000,
                 thorough_max_ops: 300,
                 termination: false,
